@@ -9,7 +9,7 @@ WITNESSES = [
     dict(id="c17-misaligned", prop="C17", file=G, expect="R17a",
          old="        if indices:  # we have a tensor\n            tensors.append(name)", new="        tensors.append(name)\n        if indices:  # we have a tensor"),
     dict(id="c17-target-string", prop="C17", file=G, expect="R17a",
-         old='    target = "".join(idx.name for idx in contraction.target)', new='    target = "".join(sorted(idx.name for idx in contraction.target))'),
+         old='        target = "".join(letters[idx.name] for idx in contraction.target)', new='        target = "".join(sorted(letters[idx.name] for idx in contraction.target))'),
     dict(id="c17-einsum-shortcut", prop="C17", file=G, expect="R17a",
          old="    if len(tensors) == 1 and indices[0] == target:", new="    if len(tensors) == 1 and len(indices[0]) == len(target):"),
     dict(id="c17-backend-fallthrough", prop="C17", file=G, expect="R17b",
@@ -37,7 +37,7 @@ WITNESSES = [
     dict(id="c17-factors-dropped", prop="C17", file=G, expect="R17a",
          old="    components = [*factors]\n    # special case: single tensor with the correct target indices", new="    components = []\n    # special case: single tensor with the correct target indices"),
     dict(id="c17-idx-string-sorted", prop="C17", file=G, expect="R17a",
-         old='            idx_str.append("".join(idx.name for idx in indices))', new='            idx_str.append("".join(sorted(idx.name for idx in indices)))'),
+         old='        idx_str = ["".join(letters[idx.name] for idx in indices)', new='        idx_str = ["".join(sorted(letters[idx.name] for idx in indices))'),
     dict(id="c17-cache-miss-silent", prop="C17", file=G, expect="R17a",
          old="            name = contraction_cache.get(name, None)\n            if name is None:", new="            name = contraction_cache.get(name, name)\n            if name is None:"),
     dict(id="c17-lt-contract-target", prop="C17", file=G, expect="R17a",
